@@ -158,6 +158,8 @@ class Ethernet(object):
             (self.vlantag, self.type) = struct.unpack_from(">HH", buf, 14)
             hdr_len = Ethernet.HEADERLEN_VLAN
         else:
+            self.vlan = False
+            self.vlantag = 0xFFFF
             self.type = _type
             hdr_len = Ethernet.HEADERLEN
         if fcs:
